@@ -172,31 +172,29 @@ Qed.
 (** ** (2) [edgeIdx] computes [lastFin] as a (wrap, index) pair *)
 
 Lemma edgeIdx_spec wraps relMS atoMS :
-  0 <= relMS < loopMS -> 0 <= atoMS -> atoMS * ts r <= 1000 * en (segAt r 0) ->
+  0 <= relMS -> 0 <= atoMS ->
   let '(w, i) := edgeIdx r wraps relMS atoMS in
   0 <= i < N /\ w * N + i = lastFin r (wraps * D + Z.quot ((relMS + atoMS) * ts r) 1000).
 Proof.
-  intros Hrel Hato Hato1. pose proof HN as HN'. pose proof HD as HD'. pose proof Hts as Hts'.
-  pose proof (wf_loop _ _ W) as HL.
-  pose proof (en_le_dur r loopMS W 0 ltac:(lia)) as He0.
+  intros Hrel Hato. pose proof HN as HN'. pose proof HD as HD'. pose proof Hts as Hts'.
   unfold edgeIdx. rewrite Z.quot_div_nonneg by nia.
-  assert (HX : 0 <= (relMS + atoMS) * ts r < 1000 * (D + en (segAt r 0))).
-  { assert (relMS * ts r <= (loopMS - 1) * ts r) by (apply Z.mul_le_mono_nonneg_r; lia). nia. }
-  assert (HT : 0 <= (relMS + atoMS) * ts r / 1000 < D + en (segAt r 0)).
-  { split; [apply Z.div_pos; lia|apply Z.div_lt_upper_bound; lia]. }
-  set (relT := (relMS + atoMS) * ts r / 1000) in *. clearbody relT. unfold lastFin.
+  assert (HT : 0 <= (relMS + atoMS) * ts r / 1000) by (apply Z.div_pos; nia).
+  set (relT0 := (relMS + atoMS) * ts r / 1000) in *. clearbody relT0.
+  assert (Hex : exists w' relT,
+             (if relT0 >=? D then (wraps + relT0 / D, relT0 mod D) else (wraps, relT0)) = (w', relT) /\
+             0 <= relT < D /\ w' * D + relT = wraps * D + relT0).
+  { destruct (relT0 >=? D) eqn:E0.
+    - exists (wraps + relT0 / D), (relT0 mod D). split; [reflexivity|].
+      pose proof (Z.mod_pos_bound relT0 D HD'). pose proof (Z.div_mod relT0 D ltac:(lia)). split; [lia|nia].
+    - exists wraps, relT0. split; [reflexivity|]. lia. }
+  destruct Hex as (w' & relT & -> & Hr & <-). unfold lastFin.
+  destruct (divmod_at w' D relT Hr) as [-> ->].
   destruct (relT <? en (segAt r 0)) eqn:E0.
-  - destruct (divmod_at wraps D relT ltac:(lia)) as [-> ->]. rewrite cnt_before by lia. lia.
+  - rewrite cnt_before by lia. lia.
   - change (firstFinishedIdx (segs r) relT) with (cnt (segs r) relT - 1).
-    destruct (Z.lt_ge_cases relT D) as [Hlt|Hge].
-    + destruct (divmod_at wraps D relT ltac:(lia)) as [-> ->].
-      destruct (cnt_spec relT) as (Hc1 & Hc2 & Hc3). set (c := cnt (segs r) relT) in *. clearbody c.
-      assert (1 <= c). { destruct (Z.eq_dec c 0) as [->|]; [|lia]. specialize (Hc3 ltac:(lia)). lia. }
-      destruct (c - 1 <? 0) eqn:E1; [lia|]. lia.
-    + rewrite (cnt_after relT Hge). destruct (N - 1 <? 0) eqn:E1; [lia|].
-      replace (wraps * D + relT) with ((wraps + 1) * D + (relT - D)) by lia.
-      destruct (divmod_at (wraps + 1) D (relT - D) ltac:(lia)) as [-> ->].
-      rewrite cnt_before by lia. lia.
+    destruct (cnt_spec relT) as (Hc1 & Hc2 & Hc3). set (c := cnt (segs r) relT) in *. clearbody c.
+    assert (1 <= c). { destruct (Z.eq_dec c 0) as [->|]; [|lia]. specialize (Hc3 ltac:(lia)). lia. }
+    destruct (c - 1 <? 0) eqn:E1; lia.
 Qed.
 
 (** ** (3) the run-length loop lists the segments one by one *)
@@ -292,35 +290,35 @@ Qed.
 
 (** the edge computed from the (wraps, rest) pair of the instant [x] is [lastFin] at [x] *)
 Lemma edge_tick c atoMS x :
-  startS c * 1000 <= x -> 0 <= atoMS -> atoMS * ts r <= 1000 * en (segAt r 0) ->
+  startS c * 1000 <= x -> 0 <= atoMS ->
   let '(w, i) := edgeIdx r ((x - startS c * 1000) / loopMS) ((x - startS c * 1000) mod loopMS) atoMS in
   0 <= i < N /\ w * N + i = lastFin r (tick r c atoMS x).
 Proof.
-  intros Hx Ha Ha1. pose proof loopMS_pos as HL.
+  intros Hx Ha. pose proof loopMS_pos as HL.
   unfold tick. rewrite (tick_split (x - startS c * 1000) atoMS) by lia.
-  apply edgeIdx_spec; [apply Z.mod_pos_bound; lia|lia|lia].
+  apply edgeIdx_spec; [apply Z.mod_pos_bound; lia|lia].
 Qed.
 
 (** ** (4) the timeline of the MPD is the window [first, last] *)
 
 Theorem timeline_is_window c now tsbdMS atoMS :
-  startS c * 1000 <= now -> 0 <= tsbdMS -> 0 <= atoMS -> atoMS * ts r <= 1000 * en (segAt r 0) ->
+  startS c * 1000 <= now -> 0 <= tsbdMS -> 0 <= atoMS ->
   let se := generateTimelineEntries r (calcWrapTimes loopMS c now tsbdMS) atoMS in
   let last := window_last r c atoMS now in
   let first := window_first r c atoMS now tsbdMS in
-  (last < 0 -> se_startNr se = -1 /\ se_entries se = []) /\
+  (last < 0 -> se_startNr se = -1 /\ se_entries se = [] /\ se_lsi_nr se = -1) /\
   (0 <= last ->
      first <= last /\ se_startNr se = first /\
      expand (se_entries se) = window_td r first last /\
      se_lsi_nr se = last /\ se_lsi_start se = S r last /\ se_lsi_dur se = E r last - S r last).
 Proof.
-  intros Hnow Htsbd Ha Ha1. cbv zeta. pose proof HN as HN'.
+  intros Hnow Htsbd Ha. cbv zeta. pose proof HN as HN'.
   unfold window_last, window_first.
   destruct (calcWrapTimes_spec c now tsbdMS Hnow) as (Hw1 & Hw2 & Hw3 & Hw4).
   set (ws := winStartMS c now tsbdMS) in *.
   assert (Hws : startS c * 1000 <= ws <= now) by (unfold ws, winStartMS; lia).
-  pose proof (edge_tick c atoMS ws ltac:(lia) Ha Ha1) as Hs.
-  pose proof (edge_tick c atoMS now Hnow Ha Ha1) as Hn.
+  pose proof (edge_tick c atoMS ws ltac:(lia) Ha) as Hs.
+  pose proof (edge_tick c atoMS now Hnow Ha) as Hn.
   pose proof (lastFin_mono (tick r c atoMS ws) (tick r c atoMS now)
                 ltac:(split; [apply tick_nonneg; lia|apply tick_mono; lia])) as Hmono.
   destruct (lastFin_spec (tick r c atoMS ws) ltac:(apply tick_nonneg; lia)) as (Hlfs & _ & _).
@@ -337,7 +335,7 @@ Proof.
     - exists sw0, si0. split; [reflexivity|]. split; [lia|]. nia. }
   destruct Hfirst as (sw & si & -> & Hsi' & Hfe).
   destruct (nw <? 0) eqn:Enw.
-  - split; [intros _; cbn [se_startNr se_entries]; split; reflexivity | intros; nia].
+  - split; [intros _; cbn [se_startNr se_entries se_lsi_nr]; repeat split; reflexivity | intros; nia].
   - assert (Hlast : 0 <= lfn) by nia. split; [lia|]. intros _.
     set (first := Z.max 0 lfs) in *.
     assert (Hfl : first <= lfn) by lia.
@@ -564,7 +562,6 @@ Qed.
 
 Theorem mpd_listed_served c atoMS now j t d :
   startS c * 1000 <= now -> 0 <= tsbdS c -> ato c = Some atoMS -> 0 <= atoMS ->
-  atoMS * ts r <= 1000 * en (segAt r 0) ->
   let se := generateTimelineEntries r (calcWrapTimes loopMS c now (1000 * tsbdS c)) atoMS in
   nth_error (expand (se_entries se)) j = Some (t, d) ->
   ((0 < j)%nat \/ E r (se_startNr se + 1) - S r (se_startNr se + 1) <= tsbdMarginS * ts r) ->
@@ -574,12 +571,12 @@ Theorem mpd_listed_served c atoMS now j t d :
   (exists m, lookup r loopMS c ByNumber (startNr c + (se_startNr se + Z.of_nat j)) now = TOk m /\
              newTime m = t /\ newDur m = u32 d /\ newNr m = startNr c + (se_startNr se + Z.of_nat j)).
 Proof.
-  intros Hnow Htsbd Hato Ha Ha1. cbv zeta.
-  destruct (timeline_is_window c now (1000 * tsbdS c) atoMS Hnow ltac:(lia) Ha Ha1) as [Hempty Hwin].
+  intros Hnow Htsbd Hato Ha. cbv zeta.
+  destruct (timeline_is_window c now (1000 * tsbdS c) atoMS Hnow ltac:(lia) Ha) as [Hempty Hwin].
   cbv zeta in Hempty, Hwin.
   set (se := generateTimelineEntries r (calcWrapTimes loopMS c now (1000 * tsbdS c)) atoMS) in *. clearbody se.
   destruct (Z.lt_ge_cases (window_last r c atoMS now) 0) as [Hneg|Hpos].
-  - destruct (Hempty Hneg) as [_ ->]. destruct j; discriminate.
+  - destruct (Hempty Hneg) as (_ & -> & _). destruct j; discriminate.
   - destruct (Hwin Hpos) as (Hfl & Hnr & Hex & _). rewrite Hex, Hnr. unfold window_td.
     intros Hnth Hshort Ht Hs Hn. apply nth_error_map_seqZ in Hnth. destruct Hnth as [Hj Htd].
     unfold td in Htd. injection Htd as -> ->.
@@ -595,19 +592,18 @@ Qed.
 (** the segment after the last listed one (t = t_last + d_last, number = nr_last + 1) is too early *)
 Theorem mpd_next_too_early c atoMS now tsbdMS :
   startS c * 1000 <= now -> 0 <= tsbdMS -> ato c = Some atoMS -> 0 <= atoMS ->
-  atoMS * ts r <= 1000 * en (segAt r 0) ->
   let se := generateTimelineEntries r (calcWrapTimes loopMS c now tsbdMS) atoMS in
   0 <= se_startNr se ->
   se_lsi_start se + se_lsi_dur se < two64 -> 0 <= startNr c -> startNr c + (se_lsi_nr se + 1) < two32 ->
   (exists ms, lookup r loopMS c ByTime (se_lsi_start se + se_lsi_dur se) now = TTooEarly ms) /\
   (exists ms, lookup r loopMS c ByNumber (startNr c + (se_lsi_nr se + 1)) now = TTooEarly ms).
 Proof.
-  intros Hnow Htsbd Hato Ha Ha1. cbv zeta.
-  destruct (timeline_is_window c now tsbdMS atoMS Hnow Htsbd Ha Ha1) as [Hempty Hwin].
+  intros Hnow Htsbd Hato Ha. cbv zeta.
+  destruct (timeline_is_window c now tsbdMS atoMS Hnow Htsbd Ha) as [Hempty Hwin].
   cbv zeta in Hempty, Hwin.
   set (se := generateTimelineEntries r (calcWrapTimes loopMS c now tsbdMS) atoMS) in *. clearbody se.
   intros Hne. destruct (Z.lt_ge_cases (window_last r c atoMS now) 0) as [Hneg|Hpos].
-  - destruct (Hempty Hneg) as [Hm _]. lia.
+  - destruct (Hempty Hneg) as (Hm & _). lia.
   - destruct (Hwin Hpos) as (_ & _ & _ & -> & -> & ->).
     replace (S r (window_last r c atoMS now) + (E r (window_last r c atoMS now) - S r (window_last r c atoMS now)))
       with (S r (window_last r c atoMS now + 1))
@@ -653,11 +649,11 @@ Qed.
 
 (** * An availabilityTimeOffset longer than the first segment
 
-    [atoMS * ts <= 1000 * en_0] in [timeline_is_window] is a real hypothesis: 4 x 2 s loop,
-    availabilityTimeOffset 2.5 s, now = 7.9 s. Segment 4 (the first of the second loop, ends at 10 s)
-    is available from 7.5 s on and the server answers 200, but the MPD still ends with segment 3
-    until the wall clock itself wraps at 8 s: the relative time 7.9 + 2.5 s lies beyond the end of
-    the table, where findFirstFinishedSegIdx can only answer "the last one of this loop". *)
+    4 x 2 s loop, availabilityTimeOffset 2.5 s, now = 7.9 s: the relative time 7.9 + 2.5 s lies
+    beyond the end of the table. Segment 4 (the first of the second loop, ends at 10 s) is available
+    from 7.5 s on; [edgeIdx] moves a relative time beyond the loop duration on to the next loop, so
+    the timeline ends with segment 4 (before repair 11d2203 of /repo it ended with segment 3 until
+    the wall clock itself wrapped at 8 s, while the server already answered 200 for segment 4). *)
 Definition ato_rep : rep :=
   {| segs := [ {| st := 0; en := 180000; snr := 1 |}; {| st := 180000; en := 360000; snr := 2 |};
                {| st := 360000; en := 540000; snr := 3 |}; {| st := 540000; en := 720000; snr := 4 |} ];
@@ -667,16 +663,74 @@ Definition ato_cfg : tcfg := {| startS := 0; startNr := 0; tsbdS := 60; ato := S
 Lemma ato_rep_wf : wf ato_rep 8000.
 Proof. constructor; cbn; try lia; try discriminate; repeat constructor; cbn; lia. Qed.
 
-Lemma big_ato_witness :
-  exists r loopMS c atoMS now,
-    wf r loopMS /\ startS c * 1000 <= now /\ 0 <= tsbdS c /\ ato c = Some atoMS /\ 0 <= atoMS /\
-    1000 * en (segAt r 0) < atoMS * ts r /\
-    let se := generateTimelineEntries r (calcWrapTimes loopMS c now (1000 * tsbdS c)) atoMS in
-    0 <= se_lsi_nr se < window_last r c atoMS now /\
-    exists m, lookup r loopMS c ByTime (se_lsi_start se + se_lsi_dur se) now = TOk m /\
-              newNr m = startNr c + (se_lsi_nr se + 1).
+Lemma big_ato_example :
+  wf ato_rep 8000 /\ 1000 * en (segAt ato_rep 0) < 2500 * ts ato_rep /\
+  generateTimelineEntries ato_rep (calcWrapTimes 8000 ato_cfg 7900 60000) 2500
+  = {| se_startNr := 0; se_entries := [{| e_t := 0; e_d := 180000; e_r := 4 |}];
+       se_lsi_nr := 4; se_lsi_start := 720000; se_lsi_dur := 180000 |} /\
+  window_last ato_rep ato_cfg 2500 7900 = 4 /\
+  lookup ato_rep 8000 ato_cfg ByTime 720000 7900
+  = TOk {| origTime := 0; newTime := 720000; origNr := 1; newNr := 4;
+           origDur := 180000; newDur := 180000; mtimescale := 90000 |} /\
+  lookup ato_rep 8000 ato_cfg ByTime 900000 7900 = TTooEarly 1600 /\
+  lookup ato_rep 8000 ato_cfg ByNumber 5 7900 = TTooEarly 1600.
 Proof.
-  exists ato_rep, 8000, ato_cfg, 2500, 7900. split; [exact ato_rep_wf|].
-  vm_compute. repeat split; try reflexivity; try discriminate.
-  eexists. split; reflexivity.
+  split; [exact ato_rep_wf|]. vm_compute. repeat split; reflexivity.
+Qed.
+
+(** * publishTime of the SegmentTimeline MPD (Publish.v) = availability instant of the live edge *)
+From Verif Require Import Publish.
+
+Lemma round_div_grid x d : 0 < d -> round_div (x * d) d = x.
+Proof.
+  intros Hd. unfold round_div. symmetry. apply (Z.div_unique _ _ _ d); lia.
+Qed.
+
+(** On the millisecond grid ([E last * 1000 = Ems * ts]) the publishTime is the instant
+    start + Ems - ato at which the newest listed segment became available (never before the start
+    of the stream), and it is not later than [now]; with an empty timeline it is the start. *)
+Theorem publish_is_edge_availability r loopMS c now tsbdMS atoMS Ems :
+  wf r loopMS -> startS c * 1000 <= now -> 0 <= tsbdMS -> 0 <= atoMS ->
+  let last := window_last r c atoMS now in
+  (0 <= last -> E r last * 1000 = Ems * ts r) ->
+  mpdPublishMS r loopMS c now tsbdMS atoMS
+  = (if last <? 0 then startS c * 1000 else Z.max (startS c * 1000) (startS c * 1000 + Ems - atoMS)) /\
+  mpdPublishMS r loopMS c now tsbdMS atoMS <= now.
+Proof.
+  intros W Hnow Htsbd Ha. cbv zeta. intros Hgrid. pose proof (wf_ts _ _ W) as Hts.
+  destruct (timeline_is_window r loopMS W c now tsbdMS atoMS Hnow Htsbd Ha) as [Hempty Hwin].
+  cbv zeta in Hempty, Hwin. unfold mpdPublishMS, publishMS.
+  set (se := generateTimelineEntries r (calcWrapTimes loopMS c now tsbdMS) atoMS) in *. clearbody se.
+  destruct (window_last r c atoMS now <? 0) eqn:El.
+  - destruct (Hempty ltac:(lia)) as (_ & _ & ->). cbn. lia.
+  - assert (Hpos : 0 <= window_last r c atoMS now) by lia.
+    destruct (Hwin Hpos) as (_ & _ & _ & -> & -> & ->). rewrite El. unfold lsiAvailMS.
+    replace ((S r (window_last r c atoMS now) + (E r (window_last r c atoMS now) - S r (window_last r c atoMS now))) * 1000)
+      with (Ems * ts r) by (rewrite <- (Hgrid Hpos); ring).
+    rewrite round_div_grid by exact Hts.
+    pose proof (proj1 (edge_step r loopMS W c atoMS now _ Hpos) ltac:(lia)) as Hst.
+    rewrite (Hgrid Hpos) in Hst.
+    assert (Ems <= now - startS c * 1000 + atoMS) by nia.
+    destruct (Ems - atoMS + startS c * 1000 <? startS c * 1000) eqn:E1; lia.
+Qed.
+
+(** ... and it never decreases as [now] increases. *)
+Theorem publish_monotone r loopMS c tsbdMS atoMS now1 now2 :
+  wf r loopMS -> startS c * 1000 <= now1 <= now2 -> 0 <= tsbdMS -> 0 <= atoMS ->
+  (forall n, 0 <= n -> (ts r | E r n * 1000)) ->
+  mpdPublishMS r loopMS c now1 tsbdMS atoMS <= mpdPublishMS r loopMS c now2 tsbdMS atoMS.
+Proof.
+  intros W [H1 H2] Htsbd Ha Hgrid. pose proof (wf_ts _ _ W) as Hts.
+  destruct (edges_monotone r loopMS W c atoMS tsbdMS now1 now2 Ha (conj H1 H2)) as [Hl _].
+  assert (Hg : forall now, exists Ems, 0 <= window_last r c atoMS now -> E r (window_last r c atoMS now) * 1000 = Ems * ts r).
+  { intros now. destruct (Z.lt_ge_cases (window_last r c atoMS now) 0) as [Hn|Hp].
+    - exists 0. lia.
+    - destruct (Hgrid _ Hp) as [z Hz]. exists z. intros _. exact Hz. }
+  destruct (Hg now1) as [e1 He1]. destruct (Hg now2) as [e2 He2].
+  destruct (publish_is_edge_availability r loopMS c now1 tsbdMS atoMS e1 W H1 Htsbd Ha He1) as [-> _].
+  destruct (publish_is_edge_availability r loopMS c now2 tsbdMS atoMS e2 W ltac:(lia) Htsbd Ha He2) as [-> _].
+  destruct (window_last r c atoMS now1 <? 0) eqn:E1; destruct (window_last r c atoMS now2 <? 0) eqn:E2; try lia.
+  pose proof (E_mono r loopMS W (window_last r c atoMS now1) (window_last r c atoMS now2) ltac:(lia)) as Hm.
+  specialize (He1 ltac:(lia)). specialize (He2 ltac:(lia)).
+  assert (e1 <= e2) by nia. lia.
 Qed.
